@@ -355,11 +355,16 @@ func (c *client) Do(ctx context.Context, req *Request, opts ...RequestOption) (r
 	rc, cancel := context.WithTimeout(ctx, ropts.timeout)
 	defer cancel()
 
+	// register the receiver before the request can be answered
+	rid := rp.Metadata.RequestId
+	ch := c.register(rid)
+	defer c.unregister(rid, ch)
+
 	if err = c.write(&rp); err != nil {
 		return
 	}
 
-	res, err = c.recv(rc, rp.Metadata.RequestId)
+	res, err = c.recv(rc, rid, ch)
 	if err != nil {
 		return
 	}
@@ -617,23 +622,27 @@ func (c *client) handlePong(packet *protocol.Packet) {
 	c.lastPongAt = time.Now()
 }
 
-func (c *client) recv(ctx context.Context, rid uint32) (res *protocol.Packet, err error) {
+func (c *client) register(rid uint32) chan *protocol.Packet {
 	ch := make(chan *protocol.Packet, 1)
-
-	defer func() {
-		c.recvsMu.Lock()
-		delete(c.recvs, rid)
-		verifhook.Point("waiter:unregister", uint64(rid))
-		c.recvsMu.Unlock()
-
-		close(ch)
-	}()
 
 	c.recvsMu.Lock()
 	c.recvs[rid] = ch
 	verifhook.Point("waiter:register", uint64(rid))
 	c.recvsMu.Unlock()
 
+	return ch
+}
+
+func (c *client) unregister(rid uint32, ch chan *protocol.Packet) {
+	c.recvsMu.Lock()
+	delete(c.recvs, rid)
+	verifhook.Point("waiter:unregister", uint64(rid))
+	c.recvsMu.Unlock()
+
+	close(ch)
+}
+
+func (c *client) recv(ctx context.Context, rid uint32, ch chan *protocol.Packet) (res *protocol.Packet, err error) {
 	select {
 	case res = <-ch:
 	case <-ctx.Done():
